@@ -2811,6 +2811,75 @@ pub proof fn lemma_router_uniq<T>(r: Router<T>)
         assert(k2@ == k@);
     }
 }
+// ================================================================ C01 "each such rule is reported exactly once": one source per rule
+// match_request of a layer concatenates the answers of the buckets it consults (unit rtr proves the answer, as a MULTISET, to be that sum).
+// A rule is therefore reported once iff (a) each consulted bucket reports it at most once (the same statement one layer down) and (b) at most
+// ONE consulted bucket holds it. (b) is what the layer invariants give; it is stated here per layer over the buckets a request consults.
+// (Scheme and Ip: proved on match_request itself, above — the Ip layer consults several range buckets that may hold the same rule: F7.)
+pub proof fn c01_once_method<T>(m: MethodMatcher<T>, x: RouteRef<T>)
+    requires m.wf(),
+    ensures !(m.any_method.holds(x) && map_holds(m.methods@, x)), !(m.any_method.holds(x) && map_holds(m.exclude_methods@, x)),
+        !(map_holds(m.methods@, x) && map_holds(m.exclude_methods@, x)),
+        // one inclusion bucket is consulted (the request's method); among the exclusion buckets the rule sits in one only
+        forall|k1: Vec<String>, k2: Vec<String>| m.exclude_methods@.contains_key(k1) && m.exclude_methods@.contains_key(k2) && #[trigger] m.exclude_methods@[k1].holds(x) && #[trigger] m.exclude_methods@[k2].holds(x) ==> k1 == k2,
+{
+    lemma_meth_excl_uniq(m);
+    let kf = meth_kf::<T>(); let ekf = excl_kf::<T>();
+    if m.any_method.holds(x) {
+        assert(meth_any_ok(x));
+        if map_holds(m.methods@, x) { let k = choose|k: String| m.methods@.contains_key(k) && #[trigger] m.methods@[k].holds(x); assert(kf(k, x)); }
+        if map_holds(m.exclude_methods@, x) { let k = choose|k: Vec<String>| m.exclude_methods@.contains_key(k) && #[trigger] m.exclude_methods@[k].holds(x); assert(ekf(k, x)); }
+    }
+    if map_holds(m.methods@, x) && map_holds(m.exclude_methods@, x) { assert(map_holds(m.methods@, x) ==> !map_holds(m.exclude_methods@, x)); }
+}
+pub proof fn c01_once_header<T>(m: HeaderMatcher<T>, x: RouteRef<T>)
+    requires m.wf(),
+    ensures !(m.any_header.holds(x) && map_holds(m.condition_groups@, x)),
+        forall|k1: BTreeSet<HeaderCondition>, k2: BTreeSet<HeaderCondition>| m.condition_groups@.contains_key(k1) && m.condition_groups@.contains_key(k2) && #[trigger] m.condition_groups@[k1].holds(x) && #[trigger] m.condition_groups@[k2].holds(x) ==> k1 == k2,
+{
+    lemma_hdr_map_uniq(m);
+    let kf = hdr_kf::<T>();
+    if m.any_header.holds(x) && map_holds(m.condition_groups@, x) { let k = choose|k: BTreeSet<HeaderCondition>| m.condition_groups@.contains_key(k) && #[trigger] m.condition_groups@[k].holds(x); assert(kf(k, x)); assert(rheaders(*x).len() == 0); }
+}
+pub proof fn c01_once_datetime<T>(m: DateTimeMatcher<T>, x: RouteRef<T>)
+    requires m.wf(),
+    ensures !(m.any_datetime.holds(x) && map_holds(m.condition_groups@, x)),
+        forall|k1: BTreeSet<DateTimeCondition>, k2: BTreeSet<DateTimeCondition>| m.condition_groups@.contains_key(k1) && m.condition_groups@.contains_key(k2) && #[trigger] m.condition_groups@[k1].holds(x) && #[trigger] m.condition_groups@[k2].holds(x) ==> k1 == k2,
+{
+    lemma_dt_map_uniq(m);
+    let kf = dt_kf::<T>();
+    if m.any_datetime.holds(x) && map_holds(m.condition_groups@, x) { let k = choose|k: BTreeSet<DateTimeCondition>| m.condition_groups@.contains_key(k) && #[trigger] m.condition_groups@[k].holds(x); assert(kf(k, x)); assert(dt_none(x)); }
+}
+pub proof fn c01_once_host<T>(m: HostMatcher<T>, x: RouteRef<T>)
+    requires m.wf(),
+    ensures !(m.any_host.holds(x) && map_holds(m.static_hosts@, x)), !(m.any_host.holds(x) && map_holds(m.regex_tree_rule.tmap(), x)),
+        !(map_holds(m.static_hosts@, x) && map_holds(m.regex_tree_rule.tmap(), x)),
+        forall|k1: String, k2: String| m.static_hosts@.contains_key(k1) && m.static_hosts@.contains_key(k2) && #[trigger] m.static_hosts@[k1].holds(x) && #[trigger] m.static_hosts@[k2].holds(x) ==> k1 == k2,
+        forall|k1: Seq<char>, k2: Seq<char>| m.regex_tree_rule.tmap().contains_key(k1) && m.regex_tree_rule.tmap().contains_key(k2) && #[trigger] m.regex_tree_rule.tmap()[k1].holds(x) && #[trigger] m.regex_tree_rule.tmap()[k2].holds(x) ==> k1 == k2,
+{
+    lemma_host_map_uniq(m);
+}
+pub proof fn c01_once_path<T>(m: PathAndQueryMatcher<T>, x: RouteRef<T>)
+    requires m.wf(),
+    ensures !(m.in_static(x) && m.in_tree(x)),
+        forall|p1: String, i1: String, p2: String, i2: String| #[trigger] static_has(m.static_rules@, p1, i1, x) && #[trigger] static_has(m.static_rules@, p2, i2, x) ==> p1 == p2 && i1 == i2,
+        forall|k1: (Seq<char>, Seq<char>), k2: (Seq<char>, Seq<char>)| #[trigger] m.regex_tree_rule.tmap2().contains_key(k1) && m.regex_tree_rule.tmap2()[k1] == x && #[trigger] m.regex_tree_rule.tmap2().contains_key(k2) && m.regex_tree_rule.tmap2()[k2] == x ==> k1 == k2,
+{
+    axiom_string_ext();
+    let s = m.static_rules@; let t = m.regex_tree_rule.tmap2();
+    if m.in_static(x) && m.in_tree(x) {
+        let (p, i) = choose|p: String, i: String| s.contains_key(p) && #[trigger] s[p]@.contains_key(i) && s[p]@[i] == x;
+        let key = choose|key: (Seq<char>, Seq<char>)| #[trigger] t.contains_key(key) && t[key] == x;
+        assert(rpath(*s[p]@[i]) == PathKey::Static(p@)); assert(rpath(*t[key]) == PathKey::Dynamic(key.0));
+    }
+    assert forall|p1: String, i1: String, p2: String, i2: String| #[trigger] static_has(s, p1, i1, x) && #[trigger] static_has(s, p2, i2, x) implies p1 == p2 && i1 == i2 by {
+        assert(rid(*s[p1]@[i1]) == i1@ && rpath(*s[p1]@[i1]) == PathKey::Static(p1@));
+        assert(rid(*s[p2]@[i2]) == i2@ && rpath(*s[p2]@[i2]) == PathKey::Static(p2@));
+    }
+    assert forall|k1: (Seq<char>, Seq<char>), k2: (Seq<char>, Seq<char>)| #[trigger] t.contains_key(k1) && t[k1] == x && #[trigger] t.contains_key(k2) && t[k2] == x implies k1 == k2 by {
+        assert(rid(*t[k1]) == k1.1 && rpath(*t[k1]) == PathKey::Dynamic(k1.0)); assert(rid(*t[k2]) == k2.1 && rpath(*t[k2]) == PathKey::Dynamic(k2.0));
+    }
+}
 impl<T> Router<T> {
     //@@ fn src/router/mod.rs :: impl <T>Router<T> / fn from_arc_config -> r
     //@| ensures r.wf(), r.routes@.len() == 0, forall|x: RouteRef<T>| !r.live(x),
